@@ -515,27 +515,22 @@ def generate_order(tree):
             raise Unsupported(name + ': return ' + ast.unparse(b[2]))
         out.append(f'Definition gen_{name} (l : list ph) : nat :=\n  match l with nil => O | p :: _ =>\n    let approx := {rname} (map gen_cycle l) (gen_cycle p) in\n'
                    f'    {pick} (map (fun q => {dt}%float) l) end.')
-    # argsort
+    # argsort: the two stored doubles as lexsort keys (the LAST key is the primary one)
     fn = find_method(tree, 'Phase', 'argsort')
     b = nodoc(fn)
-    if len(b) != 3 or not is_src(b[0], 'phase_approx = self.cycle') or not is_src(b[1], 'phase_remainder = (self - phase_approx).cycle'):
-        raise Unsupported('argsort: keys')
-    iff = b[2]
+    if len(b) != 2 or not is_src(b[0], 'v = self.view(np.ndarray)'):
+        raise Unsupported('argsort: the keys are not the stored doubles of the phase')
+    iff = b[1]
     if not (isinstance(iff, ast.If) and is_src(iff.test, 'axis is None') and len(iff.body) == 1 and len(iff.orelse) == 1):
         raise Unsupported('argsort: lexsort calls')
-    k1 = is_src(iff.body[0], 'return np.lexsort((phase_remainder.ravel(), phase_approx.ravel()))')
-    k2 = is_src(iff.orelse[0], 'return np.lexsort(keys=(phase_remainder, phase_approx), axis=axis)')
-    r1 = is_src(iff.body[0], 'return np.lexsort((phase_approx.ravel(), phase_remainder.ravel()))')
-    r2 = is_src(iff.orelse[0], 'return np.lexsort(keys=(phase_approx, phase_remainder), axis=axis)')
-    if k1 and k2:
-        prim, sec = 'approx', 'remainder'       # lexsort: the LAST key is the primary one
-    elif r1 and r2:
-        prim, sec = 'remainder', 'approx'
-    else:
+    order = None
+    for prim, sec in (('int', 'frac'), ('frac', 'int')):
+        if is_src(iff.body[0], f'return np.lexsort((v["{sec}"].ravel(), v["{prim}"].ravel()))') and \
+           is_src(iff.orelse[0], f'return np.lexsort(keys=(v["{sec}"], v["{prim}"]), axis=axis)'):
+            order = (prim, sec)
+    if order is None:
         raise Unsupported('argsort: lexsort keys')
-    out.append('Definition gen_remainder (q : ph) : float :=\n  match op_addsub true (OPh q) (ONum (NReal (gen_cycle q))) with RPh r => gen_cycle r | _ => nan end.')
-    terms = {'approx': 'gen_cycle q', 'remainder': 'gen_remainder q'}
-    out.append(f'(* (primary key, secondary key) of np.lexsort *)\nDefinition gen_sort_keys (q : ph) : float * float := ({terms[prim]}, {terms[sec]}).')
+    out.append(f'(* (primary key, secondary key) of np.lexsort *)\nDefinition gen_sort_keys (q : ph) : float * float := (p_{order[0]} q, p_{order[1]} q).')
     # min / max / ptp / sort through the index functions
     for name, arg in (('min', 'argmin'), ('max', 'argmax')):
         b = nodoc(find_method(tree, 'Phase', name))
